@@ -93,7 +93,7 @@ def main():
             if missing:
                 probs.append('position vectors not declared inside the goroutine: %s' % sorted(missing))
         if probs:
-            c.violation('capture_%s.json' % name, {'kind': 'goroutine-closure-writes-shared-state', 'file': r['file'], 'problems': probs,
+            c.violation('capture_%s.json' % name, {'kind': 'goroutine-structure-or-shared-state (not one goroutine per cell, or captured state written)', 'file': r['file'], 'problems': probs,
                                                    'replay': 'harness/bin/cellrun -capture /repo/models   (entry for %s)' % r['file']})
     gen_files = [r for r in reps if r['model'] != 'runGeneration']
     if len(gen_files) != len(models):
